@@ -15,6 +15,42 @@ CHECKS = {
         design='5/C14', technique='deterministic simulation: model-based history checking with failing-operation faults',
         note='Trusts CPython list/dict/Decimal (shared by model and system) and the reference model in sim/model.py; '
              'host dicts restricted to string keys.'),
+    'C07': dict(
+        category='exploration',
+        text='Seeded search over histories of eval calls on one parser and one persistent host names mapping; every '
+             'program (type-directed generator over all operators, statement/slice forms, modelled builtins, lambdas) is '
+             'judged against the executable reference model: value, ParserError-vs-other class, names afterwards, and '
+             'ops charged == node evaluations counted independently. Differential sampling of the program space, not a proof.',
+        design='5/C07', technique='deterministic simulation: per-operation refinement against a reference model over persistent state',
+        note='Trusts sim/model.py (written from the property statements) and CPython Decimal/list/dict shared by both '
+             'sides; text of stringified containers, pretty, rand/shuffle, regex builtins, *= on non-Decimal operands and '
+             'nested calls between lambdas of different eval calls are unspecified (not judged); the op count itself is '
+             'not predicted (two counters of the same execution are compared).'),
+    'C09': dict(
+        category='exploration',
+        text='Seeded expression/statement shapes with host probes at the leaves; per shape all truth assignments of the '
+             'lazy-feeding leaves (enumerated up to 5 such leaves, sampled above) and raising-probe fault variants; '
+             'the ordered probe log, value and names must equal the reference model\'s. Samples shapes, enumerates '
+             'assignments within a shape.',
+        design='5/C09', technique='deterministic simulation: host probes as the only observable effects, scripted probe faults, model-predicted effect log',
+        note='Trusts the order the reference model derives from the property statement; callee-name lookup order is not observable.'),
+    'C10': dict(
+        category='exploration',
+        text='Seeded histories of evals binding the same identifier at builtin / host / parameter level with lambda '
+             'calls that fail, are swallowed by a host callback or are aborted by the op budget, driven directly, by '
+             'higher-order builtins and by host callbacks, incl. recursion, cross-eval lambdas and ast_names bodies; '
+             'oracle = scope model (value, host names), FUNCTIONS snapshot, scope-stack depth, leak check after aborts.',
+        design='5/C10', technique='deterministic simulation: fault injection (raising bodies, swallowing host, budget aborts) against a scope-stack model',
+        note='Only synchronous failures are injected (an asynchronous exception inside pop_scope is outside the property); '
+             'reads scope depth through VMState.names.scopes when present.'),
+    'C12': dict(
+        category='exploration',
+        text='Seeded histories: assignments in the four forms followed by mutations through either side, by the program '
+             'and by the host (objects it supplied or retained via a callback) between calls; oracle = copying '
+             'reference model after every step plus identity-disjointness of the stored slot from every other root '
+             'right after each assignment.',
+        design='5/C12', technique='deterministic simulation: host-retained objects mutated between calls (fault), value-semantics model + object-graph disjointness',
+        note='Aliasing through parameter passing, push/insert arguments and builtin results is allowed by the property and not judged.'),
 }
 
 NOT_APPLICABLE = {
